@@ -276,6 +276,12 @@ func DependsOn(v ssa.Value, pred func(ssa.Value) bool) bool {
 				}
 			}
 		}
+		if al, ok := v.(*ssa.Alloc); ok {
+			// a pointer to a local literal: depends on what is stored into it
+			if storesInto(al, func(val ssa.Value) bool { return walk(val, depth+1) }) {
+				return true
+			}
+		}
 		if in, ok := v.(ssa.Instruction); ok {
 			for _, op := range in.Operands(nil) {
 				if *op != nil && walk(*op, depth+1) {
